@@ -14,6 +14,9 @@
 (*              accepted by acceptAll                                      *)
 (*   "P4"       calls helper 1 and returns its value (6); custom accepts   *)
 (*   "P5"       has a local call, returns the caller/callee frame distance *)
+(*   "P6"       the same after a leading mov64 r2, 0 (so that a calculator *)
+(*              that looks at the program tells the two apart; custom      *)
+(*              accepts it)                                                *)
 (*   "P7"       returns the first byte of the packet it is run on          *)
 (*   "P8"       fixed-metadata VM: returns data_end - data read from the   *)
 (*              slots of layout "A" (the length of the packet of THIS      *)
@@ -28,11 +31,15 @@
 (***************************************************************************)
 EXTENDS Naturals, FiniteSets, Sequences, TLC
 
-CONSTANTS Kind         \* "raw" | "nodata" | "mbuff" | "fixed"
+CONSTANTS Kind,        \* "raw" | "nodata" | "mbuff" | "fixed"
+          Helpers,     \* functions that may be registered under id 1: a subset of {"a", "b"}
+          Calcs        \* stack-usage calculators that may be installed: a subset of {"k64", "byprog"}
+\* (the two sets are parameters so that the transition cover of the quick tier can be planned over a
+\* smaller graph; trace validation always uses the full sets)
 
 \* (programs whose run-time errors would make compiled code fault are only offered to the kinds on
 \* which they are error-free: the compiled engines' lack of run-time checks is documented)
-Progs     == {"P1", "P2", "P3", "P4", "P5", "PX"} \cup (IF Kind = "nodata" THEN {} ELSE {"P7"})
+Progs     == {"P1", "P2", "P3", "P4", "P5", "P6", "PX"} \cup (IF Kind = "nodata" THEN {} ELSE {"P7"})
                                                    \cup (IF Kind = "fixed" THEN {"P8", "P9"} ELSE {})
 \* "default" is only the initial verifier: the crate does not export it, so it cannot be re-installed
 Verifiers == {"acceptAll", "rejectAll", "custom"}
@@ -46,19 +53,22 @@ None      == "none"
 Accepts(v, p) ==
   CASE v = "acceptAll" -> p # "PX"
     [] v = "rejectAll" -> FALSE
-    [] v = "default"   -> p \in {"P1", "P2", "P4", "P5", "P7", "P8", "P9"}
-    [] v = "custom"    -> p \in {"P1", "P2", "P4"}
+    [] v = "default"   -> p \in {"P1", "P2", "P4", "P5", "P6", "P7", "P8", "P9"}
+    [] v = "custom"    -> p \in {"P1", "P2", "P4", "P6"}
 
 VARIABLES loaded,     \* program loaded, or None
           verifier,   \* verifier in force
           jit, cl,    \* program the x86-64 JIT / Cranelift artefact was compiled from, or None
-          jitH,       \* helper 1 was registered when the JIT artefact was built (it embeds the binding)
-          helper,     \* helper 1 registered?
-          calc,       \* a stack-usage calculator (constant 64) is installed?
+          jitH, clH,  \* the function bound to helper 1 when the artefact was built (compiled code embeds the binding)
+          helper,     \* the function registered under id 1: None, "a" (returns 6 for P4) or "b" (returns 8);
+                      \* registering again replaces the earlier function
+          calc,       \* stack-usage calculator: None, "k64" (always 64) or "byprog" (64 if the program
+                      \* starts with mov64 r1, r10 - P5 - else 32); installing again replaces it
           layout,     \* layout in force (fixed-metadata VM)
           last        \* the last call and its result (observation; hidden from the state graph by VIEW)
-vars == <<loaded, verifier, jit, cl, jitH, helper, calc, layout, last>>
-view == <<loaded, verifier, jit, cl, jitH, helper, calc, layout>>
+vars == <<loaded, verifier, jit, cl, jitH, clH, helper, calc, layout, last>>
+view == <<loaded, verifier, jit, cl, jitH, clH, helper, calc, layout>>
+
 
 Obs(op, a, r) == [op |-> op, arg |-> a, res |-> r]
 
@@ -67,12 +77,15 @@ Obs(op, a, r) == [op |-> op, arg |-> a, res |-> r]
 (* "any" = the specification does not constrain the value (a recorded      *)
 (* finding area: frame distance under the x86-64 JIT).                     *)
 (***************************************************************************)
+\* hreg: the function bound to helper 1 for this execution (the registered one for the interpreter,
+\* the one bound at compile time for compiled code); cal: the calculator installed
+Frame(p, cal) == CASE cal = None -> "256" [] cal = "k64" -> "64" [] OTHER -> (IF p = "P5" THEN "64" ELSE "32")
 Val(p, e, k, hreg, cal, lay) ==
   CASE p = "P1" -> "1"
     [] p = "P2" -> "2"
     [] p = "P3" -> "3"
-    [] p = "P4" -> IF hreg THEN "6" ELSE "err"
-    [] p = "P5" -> IF e = "jit" THEN "any" ELSE IF cal THEN "64" ELSE "256"
+    [] p = "P4" -> IF hreg = "a" THEN "6" ELSE IF hreg = "b" THEN "8" ELSE "err"
+    [] p \in {"P5", "P6"} -> IF e = "jit" THEN "any" ELSE Frame(p, cal)
     [] p = "P7" -> IF Kind = "nodata" THEN "err"
                    ELSE IF k = "pe" THEN (IF e = "interp" THEN "err" ELSE "any")   \* (never run compiled: it would fault)
                    ELSE IF k = "pb" THEN "34" ELSE "17"
@@ -81,18 +94,18 @@ Val(p, e, k, hreg, cal, lay) ==
                    ELSE IF lay = "A" THEN (IF k = "pe" THEN "any" ELSE "pkt") ELSE "0"
     [] OTHER -> "err"
 
-Init == /\ loaded = None /\ verifier = "default" /\ jit = None /\ cl = None /\ jitH = FALSE
-        /\ helper = FALSE /\ calc = FALSE /\ layout = "A"
+Init == /\ loaded = None /\ verifier = "default" /\ jit = None /\ cl = None /\ jitH = None /\ clH = None
+        /\ helper = None /\ calc = None /\ layout = "A"
         /\ last = Obs("new", None, "ok")
 
 \* new(Some(p)) with the default verifier: the VM exists only if p is accepted
 NewWith(p) ==
-  /\ last.op = "new" /\ last.arg = None /\ loaded = None /\ ~helper /\ ~calc /\ verifier = "default"
+  /\ last.op = "new" /\ last.arg = None /\ loaded = None /\ helper = None /\ calc = None /\ verifier = "default"
   /\ jit = None /\ cl = None
   /\ Accepts("default", p)
   /\ loaded' = p
   /\ last' = Obs("new", p, "ok")
-  /\ UNCHANGED <<verifier, jit, cl, jitH, helper, calc, layout>>
+  /\ UNCHANGED <<verifier, jit, cl, jitH, clH, helper, calc, layout>>
 
 \* set_program: verified by the verifier in force; a failure leaves the VM exactly as it was.
 \* On success the artefacts of the previous program may be dropped or kept (mechanism left
@@ -105,9 +118,9 @@ SetProgram(p, lay) ==
           /\ jit' \in {None, jit}
           /\ cl' \in {None, cl}
           /\ last' = Obs("set_program", <<p, lay>>, "ok")
-          /\ UNCHANGED <<verifier, jitH, helper, calc>>
+          /\ UNCHANGED <<verifier, jitH, clH, helper, calc>>
      ELSE /\ last' = Obs("set_program", <<p, lay>>, "err")
-          /\ UNCHANGED <<loaded, verifier, jit, cl, jitH, helper, calc, layout>>
+          /\ UNCHANGED <<loaded, verifier, jit, cl, jitH, clH, helper, calc, layout>>
 
 \* set_verifier: the new verifier is run on the loaded program first; failure = no change
 SetVerifier(v) ==
@@ -115,61 +128,64 @@ SetVerifier(v) ==
   /\ IF loaded = None \/ Accepts(v, loaded)
      THEN /\ verifier' = v
           /\ last' = Obs("set_verifier", v, "ok")
-          /\ UNCHANGED <<loaded, jit, cl, jitH, helper, calc, layout>>
+          /\ UNCHANGED <<loaded, jit, cl, jitH, clH, helper, calc, layout>>
      ELSE /\ last' = Obs("set_verifier", v, "err")
-          /\ UNCHANGED <<loaded, verifier, jit, cl, jitH, helper, calc, layout>>
+          /\ UNCHANGED <<loaded, verifier, jit, cl, jitH, clH, helper, calc, layout>>
 
-RegisterHelper ==
-  /\ helper' = TRUE
-  /\ last' = Obs("register_helper", 1, "ok")
-  /\ UNCHANGED <<loaded, verifier, jit, cl, jitH, calc, layout>>
+RegisterHelper(h) ==
+  /\ helper' = h
+  /\ last' = Obs("register_helper", h, "ok")
+  /\ UNCHANGED <<loaded, verifier, jit, cl, jitH, clH, calc, layout>>
 
-SetCalc ==
-  /\ calc' = TRUE
-  /\ last' = Obs("set_calc", 64, "ok")
-  /\ UNCHANGED <<loaded, verifier, jit, cl, jitH, helper, layout>>
+SetCalc(c) ==
+  /\ calc' = c
+  /\ last' = Obs("set_calc", c, "ok")
+  /\ UNCHANGED <<loaded, verifier, jit, cl, jitH, clH, helper, layout>>
 
 \* compilation: Err without a program, or when the program calls an unregistered helper;
 \* Cranelift refuses local calls
 NeedsHelper(p) == p = "P4"
 JitCompile ==
-  /\ IF loaded = None \/ (NeedsHelper(loaded) /\ ~helper)
+  /\ IF loaded = None \/ (NeedsHelper(loaded) /\ helper = None)
      THEN /\ last' = Obs("jit_compile", None, "err")
           /\ jit' \in {jit, None}                          \* a failed compilation may drop the old artefact
           /\ UNCHANGED jitH
      ELSE /\ jit' = loaded /\ jitH' = helper
           /\ last' = Obs("jit_compile", None, "ok")
-  /\ UNCHANGED <<loaded, verifier, cl, helper, calc, layout>>
+  /\ UNCHANGED <<loaded, verifier, cl, clH, helper, calc, layout>>
 
 ClCompile ==
-  /\ IF loaded = None \/ (NeedsHelper(loaded) /\ ~helper) \/ loaded = "P5"
+  /\ IF loaded = None \/ (NeedsHelper(loaded) /\ helper = None) \/ loaded \in {"P5", "P6"}
      THEN /\ last' = Obs("cl_compile", None, "err")
           /\ cl' \in {cl, None}
-     ELSE /\ cl' = loaded
+          /\ UNCHANGED clH
+     ELSE /\ cl' = loaded /\ clH' = helper
           /\ last' = Obs("cl_compile", None, "ok")
   /\ UNCHANGED <<loaded, verifier, jit, jitH, helper, calc, layout>>
 
 \* executions change nothing (apart from bytes a program itself stores, not modelled: no program here stores)
 Exec(k) ==
   /\ last' = Obs("exec", k, IF loaded = None THEN "err" ELSE Val(loaded, "interp", k, helper, calc, layout))
-  /\ UNCHANGED <<loaded, verifier, jit, cl, jitH, helper, calc, layout>>
+  /\ UNCHANGED <<loaded, verifier, jit, cl, jitH, clH, helper, calc, layout>>
 
 \* compiled code: never compiled -> Err; compiled from the loaded program -> its value; compiled
 \* from an earlier program (if the implementation kept it) -> Err or the value of the LOADED one
-ExecCompiled(op, art, e, k) ==
+ExecCompiled(op, art, bound, e, k) ==
   /\ \E r \in (IF art = None \/ loaded = None THEN {"err"}
-               ELSE IF art = loaded THEN {Val(loaded, e, k, TRUE, calc, layout)}
-               ELSE {"err", Val(loaded, e, k, TRUE, calc, layout)}) :
+               ELSE IF art = loaded THEN {Val(loaded, e, k, bound, calc, layout)}
+               ELSE {"err", Val(loaded, e, k, bound, calc, layout)}) :
         last' = Obs(op, k, r)
-  /\ UNCHANGED <<loaded, verifier, jit, cl, jitH, helper, calc, layout>>
-ExecJit(k) == ExecCompiled("exec_jit", jit, "jit", k)
-ExecCl(k)  == ExecCompiled("exec_cl", cl, "cl", k)
+  /\ UNCHANGED <<loaded, verifier, jit, cl, jitH, clH, helper, calc, layout>>
+ExecJit(k) == ExecCompiled("exec_jit", jit, jitH, "jit", k)
+ExecCl(k)  == ExecCompiled("exec_cl", cl, clH, "cl", k)
 
 Next ==
   \/ \E p \in Progs : NewWith(p)
   \/ \E p \in Progs, lay \in Layouts : SetProgram(p, lay)
   \/ \E v \in Verifiers : SetVerifier(v)
-  \/ RegisterHelper \/ SetCalc \/ JitCompile \/ ClCompile
+  \/ \E h \in Helpers : RegisterHelper(h)
+  \/ \E c \in Calcs : SetCalc(c)
+  \/ JitCompile \/ ClCompile
   \/ \E k \in Packets : Exec(k) \/ ExecJit(k) \/ ExecCl(k)
 
 Spec == Init /\ [][Next]_vars
@@ -179,11 +195,12 @@ Spec == Init /\ [][Next]_vars
 (***************************************************************************)
 TypeOK == /\ loaded \in Progs \cup {None} /\ verifier \in Verifiers \cup {"default"}
           /\ jit \in Progs \cup {None} /\ cl \in Progs \cup {None}
-          /\ helper \in BOOLEAN /\ calc \in BOOLEAN /\ layout \in Layouts
+          /\ helper \in Helpers \cup {None} /\ calc \in Calcs \cup {None} /\ layout \in Layouts
+          /\ jitH \in Helpers \cup {None} /\ clH \in Helpers \cup {None}
 
 \* the program that runs is the one most recently loaded successfully: a value observed from any
 \* engine is a value of the loaded program
-Values(p) == {Val(p, e, k, h, c, lay) : e \in {"interp", "jit", "cl"}, k \in Packets, h \in BOOLEAN, c \in BOOLEAN, lay \in Layouts}
+Values(p) == {Val(p, e, k, h, c, lay) : e \in {"interp", "jit", "cl"}, k \in Packets, h \in Helpers \cup {None}, c \in Calcs \cup {None}, lay \in Layouts}
 RunsLatestLoaded ==
   last.op \in {"exec", "exec_jit", "exec_cl"} /\ last.res # "err" => loaded # None /\ last.res \in Values(loaded)
 
@@ -207,5 +224,9 @@ FailedCallIsNoOp ==
 \* it is accepted by the CURRENT verifier (set_verifier re-verifies; set_program verifies)
 LoadedWasVerified == loaded # None => Accepts(verifier, loaded)
 
+\* With VIEW view (the observation `last` hidden) TLC evaluates state invariants only on the first
+\* state found for each view; InvStep states the same invariants about the post-state of EVERY
+\* transition, which covers every reachable combination of abstract state and observation.
 Inv == TypeOK /\ RunsLatestLoaded /\ ResultIsFunctionOfInputs /\ NoProgIsError /\ NotCompiledIsError /\ ArtefactsFromLoads /\ LoadedWasVerified
+InvStep == [][Inv']_vars
 =============================================================================
